@@ -115,6 +115,7 @@ type latRule struct {
 	Err       string `json:"err,omitempty"`             // if set, the write fails with this error kind after the latency
 	From      bool   `json:"from,omitempty"`            // the n-th matching write and every later one (an outage, not a single fault)
 	FirstConn bool   `json:"first_conn_only,omitempty"` // only on the first connection (the link works again after the re-dial)
+	AfterStop bool   `json:"only_after_stop,omitempty"` // the write fails only if it completes after the stop request (a transmission in flight when the daemon is told to stop)
 }
 
 type advScenario struct {
@@ -292,6 +293,9 @@ func runAdvertiser(t *testing.T, sc advScenario, hook func(w *simWorld, a *Adver
 			for i := range sc.Lat {
 				r := &sc.Lat[i]
 				if r.Err == "" || (r.Dst != "any" && r.Dst != kind) || (r.FirstConn && conn != 0) {
+					continue
+				}
+				if r.AfterStop && (sc.StopNS <= 0 || w.now() < time.Duration(sc.StopNS)) {
 					continue
 				}
 				key := [2]interface{}{conn, i}
